@@ -17,6 +17,10 @@ pub enum BeginOut {
     NoReceipt,
     /// status information with a receipt number, then abort (declined payment): nothing is reserved
     AbortAfterReceipt(u8),
+    /// the reservation is granted and its status information (with receipt number) acknowledged, then the connection is lost
+    /// in front of the completion; the re-sent reservation is granted too, this time without a receipt number. Both
+    /// pre-authorisations stand in the terminal, the call fails, the token is not open.
+    LostThenNoReceipt,
 }
 #[derive(Serialize, Deserialize, Clone, Copy, Debug, PartialEq)]
 pub enum RevOut {
@@ -88,6 +92,13 @@ pub struct ExpCall {
 
 /// Reference model of the client + mirror of the simulated ledger.
 pub fn walk(h: &History) -> (Vec<ExpCall>, Vec<PlanEntry>) {
+    walk_alt(h, true)
+}
+/// `lost_ok`: how a begin ends whose first reservation was granted with a receipt number and then lost its connection, while
+/// the re-sent one is granted without a number. Both readings keep tokens and pre-authorisations one-to-one: the begin
+/// succeeds and the token stands for the numbered pre-authorisation (true; what the code does: "only overwrite the
+/// receipt_no if it is contained in the message"), or the begin fails and the token is not open (false).
+pub fn walk_alt(h: &History, lost_ok: bool) -> (Vec<ExpCall>, Vec<PlanEntry>) {
     let mut open: BTreeMap<String, u64> = BTreeMap::new();
     let mut ledger: Vec<u64> = vec![];
     let mut dangling = h.dangling;
@@ -121,6 +132,7 @@ pub fn walk(h: &History) -> (Vec<ExpCall>, Vec<PlanEntry>) {
                     calls.push(ExpCall { op, accepted: false, own: vec![], own_result: ExpResult::RefusedActive, cleanup: None, final_result: ExpResult::RefusedActive, open_after: open.len() });
                     continue;
                 }
+                let mut own_n = 1usize;
                 let res = match out {
                     BeginOut::Success => {
                         let rc = h.receipts[issued % h.receipts.len()];
@@ -130,6 +142,29 @@ pub fn walk(h: &History) -> (Vec<ExpCall>, Vec<PlanEntry>) {
                         ExpResult::Ok
                     }
                     BeginOut::NoReceipt => {
+                        let rc = h.receipts[issued % h.receipts.len()];
+                        issued += 1;
+                        ledger.push(rc);
+                        plan.push(pe(Kind::Reservation, n_res, Outcome::NoReceipt));
+                        ExpResult::Err
+                    }
+                    BeginOut::LostThenNoReceipt if h.status_script.is_none() => {
+                        let first = h.receipts[issued % h.receipts.len()];
+                        for _ in 0..2 {
+                            let rc = h.receipts[issued % h.receipts.len()];
+                            issued += 1;
+                            ledger.push(rc);
+                        }
+                        if lost_ok {
+                            open.insert(t.clone(), first);
+                        }
+                        plan.push(PlanEntry { kind: Kind::Reservation, occ: Some(n_res), from_start: false, directive: Directive { fault: Some((FaultKind::Close, 1 + h.intermediates + 1)), ..Default::default() } });
+                        plan.push(pe(Kind::Reservation, n_res + 1, Outcome::NoReceipt));
+                        n_res += 1;
+                        own_n = 2;
+                        if lost_ok { ExpResult::Ok } else { ExpResult::Err }
+                    }
+                    BeginOut::LostThenNoReceipt => {
                         let rc = h.receipts[issued % h.receipts.len()];
                         issued += 1;
                         ledger.push(rc);
@@ -146,7 +181,7 @@ pub fn walk(h: &History) -> (Vec<ExpCall>, Vec<PlanEntry>) {
                     }
                 };
                 n_res += 1;
-                calls.push(ExpCall { op, accepted: true, own: vec![ExpReq::Reservation], own_result: res.clone(), cleanup: None, final_result: res, open_after: open.len() });
+                calls.push(ExpCall { op, accepted: true, own: vec![ExpReq::Reservation; own_n], own_result: res.clone(), cleanup: None, final_result: res, open_after: open.len() });
             }
             HOp::Commit { tok, out, .. } | HOp::Cancel { tok, out } => {
                 let t = h.tokens[tok % h.tokens.len()].clone();
@@ -240,7 +275,10 @@ pub fn walk(h: &History) -> (Vec<ExpCall>, Vec<PlanEntry>) {
 }
 
 pub fn scenario_of(h: &History) -> (Scenario, Vec<ExpCall>) {
-    let (calls, plan) = walk(h);
+    scenario_of_alt(h, true)
+}
+pub fn scenario_of_alt(h: &History, lost_ok: bool) -> (Scenario, Vec<ExpCall>) {
+    let (calls, plan) = walk_alt(h, lost_ok);
     let mut sc = Scenario { cfg: CfgSpec { max: h.max, password: h.password, ..Default::default() }, ..Default::default() };
     sc.sim.receipts = h.receipts.clone();
     sc.sim.dangling = h.dangling;
@@ -281,8 +319,17 @@ fn result_matches(exp: &ExpResult, got: &Result<Ret, ErrClass>) -> bool {
 
 /// Run one history against the real client and compare with the model. `prop` selects which mismatches count.
 pub fn check_history(prop: &str, h: &History) -> CheckResult {
+    // a history with a lost-then-unnumbered begin has two admissible readings (walk_alt): the client has to follow one of them
+    // from beginning to end
+    let two = h.status_script.is_none() && h.steps.iter().any(|s| matches!(s, HOp::Begin { out: BeginOut::LostThenNoReceipt, .. }));
+    match check_history_alt(prop, h, true) {
+        Err(e) if two => check_history_alt(prop, h, false).map_err(|_| e),
+        r => r,
+    }
+}
+fn check_history_alt(prop: &str, h: &History, lost_ok: bool) -> CheckResult {
     let input = serde_json::to_value(h).unwrap();
-    let (sc, exp) = scenario_of(h);
+    let (sc, exp) = scenario_of_alt(h, lost_ok);
     let tr = guard(|| run_scenario(&sc)).map_err(|p| Violation::new("history", format!("{prop} kind=harness-panic"), p, input.clone()))?;
     if !tr.new_returned {
         return Ok(());
@@ -333,7 +380,10 @@ pub fn check_history(prop: &str, h: &History) -> CheckResult {
             None => {
                 // own exchange failed (abort / no receipt) or begin
                 if matches!(e.op, Op::Begin(_)) {
-                    if reqs.len() != 1 {
+                    // (a begin whose first attempt lost its connection re-sends the reservation after the handshake of the new one)
+                    let reservations = reqs.iter().filter(|r| r.0 == Kind::Reservation).count();
+                    let foreign = reqs.iter().filter(|r| !matches!(r.0, Kind::Reservation | Kind::Registration | Kind::SystemInfo)).count();
+                    if (e.own.len() == 1 && reqs.len() != 1) || reservations != e.own.len() || foreign != 0 {
                         v("C07", "begin-more-than-one-exchange", format!("{label}: requests [{}]", show_reqs(&reqs)))?;
                     }
                     let ok = match (&e.own_result, got) {
@@ -406,6 +456,7 @@ fn alternatives(ntok: usize, outcomes: bool) -> Vec<HOp> {
             v.push(HOp::Begin { tok, out: BeginOut::Abort(0x6f) });
             v.push(HOp::Begin { tok, out: BeginOut::NoReceipt });
             v.push(HOp::Begin { tok, out: BeginOut::AbortAfterReceipt(0x05) });
+            v.push(HOp::Begin { tok, out: BeginOut::LostThenNoReceipt });
             v.push(HOp::Commit { tok, amount: 700, out: RevOut::Abort(0xb5) });
             v.push(HOp::Commit { tok, amount: 700, out: RevOut::CompletionNoStatus });
             v.push(HOp::Cancel { tok, out: RevOut::Abort(0x64) });
@@ -420,7 +471,7 @@ fn history_strategy() -> impl Strategy<Value = History> {
         1 => "[A-Z0-9]{1,8}",
     ];
     let code = prop_oneof![Just(0xa0u8), Just(0x6c), Just(0xb8), Just(0xfc), Just(0x00), any::<u8>()];
-    let begin_out = prop_oneof![5 => Just(BeginOut::Success), 1 => code.clone().prop_map(BeginOut::Abort), 1 => Just(BeginOut::NoReceipt), 1 => code.clone().prop_map(BeginOut::AbortAfterReceipt)];
+    let begin_out = prop_oneof![5 => Just(BeginOut::Success), 1 => code.clone().prop_map(BeginOut::Abort), 1 => Just(BeginOut::NoReceipt), 1 => code.clone().prop_map(BeginOut::AbortAfterReceipt), 1 => Just(BeginOut::LostThenNoReceipt)];
     let rev_out = prop_oneof![5 => Just(RevOut::Completion), 1 => code.clone().prop_map(RevOut::Abort)];
     let step = prop_oneof![
         3 => (0usize..5, begin_out).prop_map(|(tok, out)| HOp::Begin { tok, out }),
